@@ -100,7 +100,7 @@ def run(name: str, props: list[str], extra: list[str]) -> int:
                 print("   ", l[:260])
             meta["runs"] = [r for r in meta["runs"] if r["check"] != prop] + [{
                 "check": prop, "cmd": f"./check {prop} --tier quick {' '.join(extra)}".strip(), "exit": out.returncode, "caught": caught,
-                "first_lines": lines[:4], "verif_rev": sh(["git", "-C", str(VERIF), "rev-parse", "--short", "HEAD"]).stdout.strip()}]
+                "first_lines": [l for l in lines if not l.startswith("KNOWN")][:4], "verif_rev": sh(["git", "-C", str(VERIF), "rev-parse", "--short", "HEAD"]).stdout.strip()}]
     finally:
         sh(["git", "-C", REPO, "checkout", "--", "."])
     (dst / "meta.json").write_text(json.dumps(meta, indent=1))
